@@ -71,6 +71,10 @@ CLAIMS["C20"] = dict(ref="§5 C20", tech="TLA+ spec of recursive table addresses
     text="TLC checks for all scaled (page, index) pairs that the recursive addresses have indices (R,R,R,p4)/(R,R,p4,p3)/(R,p4,p3,p2), are canonical and page-aligned, and explores the page-table state machine with a recursive slot; on the real crate: new() over recursive and near-recursive table addresses x root-register contents x slot contents must answer Ok/NotRecursive/NotActive exactly as specified and use the common index; every recursive-region page the mapper touches during random histories must be one the property names for that call and reach the frame the specification's hardware walk reaches; the computed table pages are compared for all 512 indices x lattice pages x 3 sizes.",
     note=TB_PT)
 
+CLAIMS["C16"] = dict(ref="§5 C16", tech="TLA+ contracts of typed/raw/update register accesses (Cpu.tla TypedWriteVal/UpdateVal, checked for all 8-bit contents x masks x arguments by TLC in MC_Regs) and per-wrapper contracts on the trapped instruction stream (Trace_Cpu.tla RegContract); TLC trace validation of the real wrappers running on the trap-and-emulate CPU",
+    text="For every wrapper and API the emulated register is preset, the compiled wrapper runs (debug+release) and every privileged instruction it executes traps; TLC checks that all instructions address the register the wrapper is named after (CR/DR number, MSR index in ECX), that the operand seen by the CPU (EDX:EAX, source register) is the value the contract prescribes - typed write = unmodelled bits of the previous content | given fields, raw write exact, read = modelled bits, update = read-modify-write, documented invalid STAR/XCR0 combinations rejected with no write instruction - and the return values. Found and fixed F8 (ApicBase::write).",
+    note=TB_CPU + " Natively executing accesses (selector reads, FS/GS base, xgetbv, rflags, mxcsr) are compared with independent inline asm of the harness and limited to values ring 3 may load; FS::write_base is only exercised with the current base. SFMask/Pat/UCet/SCet/address MSR presets are restricted to contents the hardware can hold (the typed reads unwrap).")
+
 NA_DEFAULT = "check under construction in this session (planned in DESIGN.md section 5); not yet claimed"
 
 m = {
